@@ -26,7 +26,8 @@
   `parseFormat` (vocabulary in `D128/Proofs/DigitsParse.lean`: `Dg.parseSpec`, a recursive-descent
   reading of `flags* width? ('.' digits*)? verb`; `Dg.isFlagB` = one of ` #+-0`; `Dg.isDig8` = ASCII
   digit; `Dg.widthOK` = empty or `1–9` followed by digits; `Dg.dotBytes`; `Dg.accW`/`Dg.accP` = one
-  more digit of width/precision with the code's saturation to 0 / −1 from 10^5 on):
+  more digit of width/precision with the code's saturation to 0 / −1 from 10^5 on; a saturated
+  precision stays −1 — /repo commit 1d99a24, bounds for every byte string in `C07b.parsed_args_ok`):
   * `parseFormat_total`     : every byte string, every incoming `args`: no panic, termination (C20)
   * `parseFormat_spec`      : `parseFormat s a = .ok (parseSpec s.toList)` (strings below 2^63 bytes)
   * `parseFormat_ignores_args`
